@@ -512,3 +512,63 @@ class Fpk:
         return r
 
     def __repr__(self): return f"Fpk({self.c})"
+
+
+# ------------------------------------------------------------------ cube roots in Fp2 (to build G2 points with a prescribed y)
+_CBRT_CACHE = {}
+
+
+def fp2_cbrt(a):
+    """a cube root of `a` in Fp2 (p = BLS_P) or None; q - 1 = 9 t with 3 ∤ t"""
+    p = a.p
+    q = p * p
+    if a.is_zero():
+        return a
+    if not (a.pow((q - 1) // 3) == a.like(1)):
+        return None
+    s, t = 0, q - 1
+    while t % 3 == 0:
+        s, t = s + 1, t // 3
+    if p not in _CBRT_CACHE:
+        g = Fp2(1, 1, p)
+        k = 1
+        while g.pow((q - 1) // 3) == g.like(1):
+            k += 1
+            g = Fp2(k, 1, p)
+        _CBRT_CACHE[p] = g.pow(t)          # generator of the 3-Sylow subgroup (order 3^s)
+    c = _CBRT_CACHE[p]
+    k3 = pow(3, -1, t)
+    x = a.pow(k3)
+    ci = a.like(1)
+    for _ in range(3 ** s):
+        cand = x * ci
+        if cand * cand * cand == a:
+            return cand
+        ci = ci * c
+    return None
+
+
+def g2_point_with_y(y):
+    """a point (x, y) of E'(Fp2) with the given y, or None"""
+    x = fp2_cbrt(y * y - b2())
+    return None if x is None else (x, y)
+
+
+def g2_points_y_boundary(n=3):
+    """points of E' whose y has imaginary part exactly (p-1)/2 or (p+1)/2, or zero imaginary part and real part (p∓1)/2 —
+    the boundary of the ZCash sign rule"""
+    out = []
+    h = (BLS_P - 1) // 2
+    for im in (h, h + 1):
+        re, found = 0, 0
+        while found < n and re < 400:
+            re += 1
+            P = g2_point_with_y(Fp2(re, im, BLS_P))
+            if P is not None:
+                out.append(P)
+                found += 1
+    for re_ in (h, h + 1):
+        P = g2_point_with_y(Fp2(re_, 0, BLS_P))
+        if P is not None:
+            out.append(P)
+    return out
